@@ -35,8 +35,11 @@ vars == <<case, pc>>
 Init == /\ pc = "gen"
         /\ \E a1 \in (IF Pools = "full" THEN {A, B} ELSE {A}), a2 \in (IF Pools = "full" THEN {A, B, <<>>} ELSE {B, <<>>}),
               n1 \in (IF Pools = "full" THEN 0..3 ELSE {0, 2, 3}), n2 \in (IF Pools = "full" THEN 0..3 ELSE {0, 3}),
-              sel \in Sels, st \in StagePool, lm \in Limits, o \in OptsPool :
-             case = [ctrs |-> <<Ctr(1, a1, n1), Ctr(2, a2, n2)>>, sel |-> sel, stages |-> st, start |-> Start, end |-> End, limit |-> lm, opts |-> o]
+              sel \in Sels, st \in StagePool, lm \in Limits, o \in OptsPool, point \in BOOLEAN :
+             \* point: the window is the single instant Base + 25, on which no frame lies - nothing may be printed
+             /\ (point => st = <<>> /\ lm = 0 - 1)
+             /\ case = [ctrs |-> <<Ctr(1, a1, n1), Ctr(2, a2, n2)>>, sel |-> sel, stages |-> st, start |-> IF point THEN <<Base + 25, 0>> ELSE Start,
+                         end |-> IF point THEN <<Base + 25, 0>> ELSE End, limit |-> lm, opts |-> o]
 Export == pc = "gen" /\ pc' = "done" /\ UNCHANGED case /\ PrintT(<<"CASE", ToJson([in |-> case @@ [kind |-> "cmd"]])>>)
 Next == Export
 
